@@ -281,12 +281,12 @@ S = {
  "C16-5": ("C16", "/tmp/seed3/C16/_seed/3", "seed3_demo3_internal_test.go", "^(TestSeed3Demo3_)", ".", ['C16'], "",
    "applyLTXFile computes the page offset in uint32: pages beyond 4 GiB land at offset mod 2^32",
    "database larger than 4 GiB with a followed transaction touching a page above that mark"),
- "C17-3": ("C17", "/tmp/seed3/C17/_seed/1", "seed3_demo1_internal_test.go", "^(TestSeed3Demo1_)", ".", ['C17'], "",
+ "C17-3": ("C17", "/tmp/seed3/C17/_seed/1", "seed3_demo1_internal_test.go", "^(TestSeed3Demo1_)", ".", ['C17', 'C01'], "",
    "Restore writes through a sparseFileWriter that seeks over all-zero pages: a database ending on the lock page comes out one page short",
-   "committed range ends exactly on the lock page (or has trailing zero pages)"),
+   "committed range ends exactly on the lock page (SQLite itself never produces such a database) or has trailing zero pages (application running with secure_delete)"),
  "C17-4": ("C17", "/tmp/seed3/C17/_seed/2", "seed3_demo2_internal_test.go", "^(TestSeed3Demo2_)", ".", ['C17', 'C16'], "",
    "follow-mode applyLTXFile truncates/syncs only when the file shrank: the file is never extended to include a trailing lock page",
-   "followed LTX file with Commit == LockPgno while the follower file is shorter"),
+   "followed LTX file with Commit == LockPgno while the follower file is shorter - an input SQLite never produces (it skips the lock page when the database grows and when it shrinks), so on the property's input domain the change is equivalent; kept as a documented non-detection"),
  "C17-5": ("C17", "/tmp/seed3/C17/_seed/3", "seed3_demo3_internal_test.go", "^(TestSeed3Demo3_)", ".", ['C17'], "",
    "snapshotReader pre-flight check that pages past the end of the file are in the WAL does not exempt the lock page",
    "snapshot while growth across the lock page is still only in the WAL"),
